@@ -16,9 +16,10 @@ import (
 // ---- 4. residues and gaps that are unique in their column (upper-case input) ---------------------
 
 type uniqueCase struct {
-	Ali gen.Ali  `json:"ali"`
-	F   *formula `json:"formula,omitempty"`         // a tall or long alignment given by formula
-	PF  *formula `json:"profile_formula,omitempty"` // its profile alignment, by formula
+	Ali  gen.Ali   `json:"ali"`
+	F    *formula  `json:"formula,omitempty"` // a tall or long alignment given by formula
+	Plan *gen.Plan `json:"plan,omitempty"`
+	PF   *formula  `json:"profile_formula,omitempty"` // its profile alignment, by formula
 	// Profile: rows of a second alignment of the same length the profile is counted from; nil = no profile
 	Profile []string `json:"profile"`
 	// ByHand: build the profile with SetHeader/AppendCount from the harness's own counts instead of
@@ -80,7 +81,7 @@ func checkUnique(c uniqueCase) (o pbt.Outcome, err error) {
 			c.Profile = append(c.Profile, r.Seq)
 		}
 	}
-	return uniqueOn(gen.MustBuild(a), a, c, nil, o)
+	return uniqueOn(buildVia(a, c.Plan, &o), a, c, nil, o)
 }
 
 // uniqueOn: prof = a profile object built earlier from c.Profile (nil: built here)
@@ -267,7 +268,7 @@ func TestUnique(t *testing.T) {
 		}
 		a, _ := genAli(t, false, 1)
 		sprinkle(t, &a, nil)
-		c := uniqueCase{Ali: a}
+		c := uniqueCase{Ali: a, Plan: maybePlan(t, a)}
 		if rapid.IntRange(0, 2).Draw(t, "withprofile") != 0 {
 			np := rapid.IntRange(1, 5).Draw(t, "profrows")
 			chars := ntUpper
@@ -305,8 +306,9 @@ func compatible(x, y byte) bool {
 }
 
 type refCase struct {
-	Ali gen.Ali  `json:"ali"`
-	F   *formula `json:"formula,omitempty"`
+	Ali  gen.Ali   `json:"ali"`
+	F    *formula  `json:"formula,omitempty"`
+	Plan *gen.Plan `json:"plan,omitempty"`
 	// Ref: index of the reference row, or -1: the external sequence Ext
 	Ref int    `json:"ref"`
 	Ext string `json:"ext"`
@@ -477,7 +479,7 @@ func checkReference(c refCase) (o pbt.Outcome, err error) {
 	if c.Ref >= 0 {
 		ref = a.Rows[c.Ref].Seq
 	}
-	return referenceOn(gen.MustBuild(a), a, c, align.NewSequence("ref", []uint8(ref), ""), o)
+	return referenceOn(buildVia(a, c.Plan, &o), a, c, align.NewSequence("ref", []uint8(ref), ""), o)
 }
 
 // referenceOn judges the comparisons of the rows of al (content a) with the reference object refSeq
@@ -648,6 +650,7 @@ func genRefCase(t *rapid.T) refCase {
 		}
 	}
 	sprinkle(t, &c.Ali, &c.Ext)
+	c.Plan = maybePlan(t, c.Ali)
 	return c
 }
 
